@@ -895,7 +895,8 @@ class Engine:
             res.info['decide_s'] = dt
             res.props_total = len(props)
             wit = [p for p in props if p.get('description') == 'VERIF_WITNESS']
-            res.witness = bool(wit) and all(p['status'] == 'FAILURE' for p in wit)
+            # several WITNESS() sites may exist (early-return paths): one reachable end is enough
+            res.witness = any(p['status'] == 'FAILURE' for p in wit)
             errs = [p for p in props if p['status'] not in ('SUCCESS', 'FAILURE')]
             if other:
                 self.triage(h, variant, variant_defs, build, other, res)
